@@ -47,10 +47,10 @@ def ev_units(m, items, seed=0):
     out = bytearray()
     for u in items:
         if isinstance(u, TE.Tok):
-            if u.tkind == "LocalDate":
+            if u.tkind in TE.DATE_TOKEN_FORMAT:
                 day = ev_int(m, u.args[0])
                 d = _dt.date(1970, 1, 1) + _dt.timedelta(days=day)
-                out.extend(d.strftime("%d/%m/%Y").encode())
+                out.extend(d.strftime(TE.DATE_TOKEN_FORMAT[u.tkind]).encode())
             else:
                 raise ValueError("unknown token")
         elif isinstance(u, Blob):
